@@ -174,6 +174,10 @@ def judge(ctx, cfg, obs, m, stats, reduced):
     return fails, diffs
 
 
+def outcome_sig(o):
+    return json.dumps([o['calls'], o['raised'], o['swallowed'], o['residue'], o['overlap']], sort_keys=True, default=str)
+
+
 def run_configs(ctx, cfgs, stats, indep=None, budget=None):
     t = T()
     for cfg in cfgs:
@@ -181,13 +185,14 @@ def run_configs(ctx, cfgs, stats, indep=None, budget=None):
         ans = C.batch('sched', [t.model_line(o) for o in obs_all])
         key = '+'.join(cfg['actions']) + ('/shared-ns' if cfg['others'] else '')
         stats['per_config'][key] = len(obs_all)
+        stats['outcomes'][key] = set(outcome_sig(o) for o in obs_all)
         for o, m in zip(obs_all, ans):
             fails, diffs = judge(ctx, cfg, o, m, stats, indep is not None)
-            busy = set()
-            # non-trivial: some action made an access while another action had started and not finished
-            seen_done = {}
-            if len(set(o['sched'])) > 1 and o['sched'] != sorted(o['sched']) :
-                stats['nontrivial'].add((key, tuple(o['sched'])))
+            # non-trivial: the actions are really interleaved (some action resumes after another one ran)
+            sc = o['sched']
+            switches = sum(1 for x, y in zip(sc, sc[1:]) if x != y)
+            if switches >= len(set(sc)):
+                stats['nontrivial'].add((key, tuple(sc)))
             if len(stats['samples']) < 6 and (o['overlap'] or len(stats['samples']) < 3):
                 stats['samples'].append({'actions': cfg['actions'], 'others': cfg['others'], 'sched': o['sched'],
                                          'accesses': o['labels'], 'calls': o['calls'], 'raised': o['raised'],
@@ -202,12 +207,23 @@ def run(ctx):
     ])
     C.build_driver('sched')
     stats = {'runs': 0, 'serial': 0, 'overlap': 0, 'overlap_failing': 0, 'overlap_model_agrees': 0, 'shapes': {},
-             'example': None, 'per_config': {}, 'nontrivial': set(), 'samples': []}
+             'example': None, 'per_config': {}, 'nontrivial': set(), 'samples': [], 'outcomes': {}}
     run_configs(ctx, pair_configs(ctx.thorough), stats)
     pairs = stats['runs']
     exhaustive3 = None
     if ctx.thorough:
         t = T()
+        # the sleep-set reduction used for three actions is first validated on the pairs, where the full
+        # enumeration is at hand: it must reach exactly the same set of outcomes
+        checked = 0
+        for cfg in pair_configs(True):
+            key = '+'.join(cfg['actions']) + ('/shared-ns' if cfg['others'] else '')
+            reduced = set(outcome_sig(o) for o in t.explore(cfg, indep=t.independent))
+            if reduced != stats['outcomes'][key]:
+                raise C.Infra('sleep-set reduction is not outcome-preserving on %s: %d vs %d outcomes (the declared '
+                              'independence relation is wrong)' % (key, len(reduced), len(stats['outcomes'][key])))
+            checked += 1
+        ctx.coverage['independence_cross_validated_on_pair_configs'] = checked
         run_configs(ctx, triple_configs(), stats, indep=t.independent)
         exhaustive3 = stats['runs'] - pairs
         ctx.assumptions.append(
